@@ -129,9 +129,11 @@ CHECKS = {
  "C17": ("engine half: every Python assert of the engine is a Crash outcome of the faithful model and "
          "C17_engine_nocrash proves, for every hierarchy, fuel, schedule and program, that no run reaches one "
          "(store invariant preserved by all eight mutually recursive operations); pure readers proved to fail only by "
-         "fuel and to terminate under a depth bound; parser half: C17_parse_total - the fixed parser never crashes on "
+         "fuel and to terminate under a depth bound; C17_term_sub_prog: every program whose schemas are constraint-free "
+         "or carry subtype constraints x <= A ends, within an explicit fuel bound, with a result or one of the five declared "
+         "typing errors; parser half: C17_parse_total - the fixed parser never crashes on "
          "any token list; harness: undeclared exception classes, printing, per-case time bound, token-level fuzzing of "
-         "/repo against the parser model; termination of the constrained engine is observed, not proved",
+         "/repo against the parser model; termination with elimination constraints is observed (per-case time bound), not proved",
          "4 C17", "Coq proof (invariant by induction on fuel; parser totality) + correspondence + exception-class oracle + fuzzing"),
  "C18": ("schedules proved to only permute the pending constraints (C18_permute); the property itself is REFUTED on "
          "the faithful model and on the code for the error kind (C18_refuted) and for the result when elimination "
